@@ -115,6 +115,10 @@ func init() {
 		"errors.Is":               stubErrorsIs,
 		"reflect.TypeOf":          stubReflectTypeOf,
 		"strings.TrimSpace":       stubTrimSpace,
+		"(*sync.Map).Load":        stubSyncMapLoad,
+		"(*sync.Map).Store":       stubSyncMapStore,
+		"(*sync.Map).LoadOrStore": stubSyncMapLoadOrStore,
+		"(*sync.Map).Delete":      stubSyncMapDelete,
 		"(*net.TCPAddr).AddrPort": stubAddrPort,
 		"(*net.UDPAddr).AddrPort": stubAddrPort,
 		"net/netip.AddrFromSlice": stubAddrFromSlice,
@@ -1303,4 +1307,91 @@ func stubIOCopy(e *Engine, c *callCtx) bool {
 	e.sawFunc(c.name)
 	e.pushFrame(c.st, c.callee, c.args, nil, c.res)
 	return false
+}
+
+// ---------- sync.Map ----------
+// A sync.Map is modelled by an ordinary (association-list) map object kept beside it; keys and values are
+// interface values. Load / Store / LoadOrStore / Delete only (Range and the Compare* methods are not modelled).
+
+func syncMapObj(e *Engine, c *callCtx) (int, bool) {
+	p, _ := c.args[0].(PtrV)
+	if p.obj == 0 {
+		e.panicCheck(c.st, c.f, c.in, e.tb.ff, "nil *sync.Map")
+		return 0, false
+	}
+	if c.st.ghost == nil {
+		c.st.ghost = map[string]Value{}
+	}
+	key := fmt.Sprintf("syncmap:%d:%d", p.obj, p.fld)
+	if v, ok := c.st.ghost[key]; ok {
+		return v.(MapV).obj, true
+	}
+	id := e.newObj(c.st, &Object{kind: kMap})
+	c.st.ghost[key] = MapV{id}
+	return id, true
+}
+
+func stubSyncMapLoad(e *Engine, c *callCtx) bool {
+	m, ok := syncMapObj(e, c)
+	if !ok {
+		return true
+	}
+	res := c.res
+	e.mapApply(c.st, m, c.args[1], func(s *State, idx int) {
+		if res == nil {
+			return
+		}
+		if idx >= 0 {
+			s.top().locals[res] = TupleV{s.obj(m).ents[idx].v, BoolV{e.tb.tt}}
+		} else {
+			s.top().locals[res] = TupleV{IfaceV{}, BoolV{e.tb.ff}}
+		}
+	})
+	return true
+}
+
+func stubSyncMapStore(e *Engine, c *callCtx) bool {
+	m, ok := syncMapObj(e, c)
+	if !ok {
+		return true
+	}
+	e.mapUpdate(c.st, MapV{m}, c.args[1], c.args[2])
+	return true
+}
+
+func stubSyncMapLoadOrStore(e *Engine, c *callCtx) bool {
+	m, ok := syncMapObj(e, c)
+	if !ok {
+		return true
+	}
+	res := c.res
+	key, val := c.args[1], c.args[2]
+	e.mapApply(c.st, m, key, func(s *State, idx int) {
+		o := s.mut(m)
+		var out Value
+		if idx >= 0 {
+			out = TupleV{o.ents[idx].v, BoolV{e.tb.tt}}
+		} else {
+			o.ents = append(o.ents, kv{key, val})
+			out = TupleV{val, BoolV{e.tb.ff}}
+		}
+		if res != nil {
+			s.top().locals[res] = out
+		}
+	})
+	return true
+}
+
+func stubSyncMapDelete(e *Engine, c *callCtx) bool {
+	m, ok := syncMapObj(e, c)
+	if !ok {
+		return true
+	}
+	e.mapApply(c.st, m, c.args[1], func(s *State, idx int) {
+		if idx >= 0 {
+			o := s.mut(m)
+			o.ents = append(append([]kv(nil), o.ents[:idx]...), o.ents[idx+1:]...)
+		}
+	})
+	return true
 }
